@@ -175,6 +175,23 @@ def run_case(c, d):
             except UnicodeDecodeError:
                 r3['utf8'] = False
         out['explicit_c_locale'] = r3
+    # ---- two explicit sessions in one directory whose output prefixes differ only after a dot: each keeps its own three files
+    d4 = os.path.join(d, 'explicit_prefixes')
+    os.makedirs(d4)
+    pref = {}
+    for pfx, n in (('nightly.v1', 3), ('nightly.v2', 5)):
+        with open(os.path.join(d4, 'sess.py'), 'w', encoding='utf-8') as fh:
+            fh.write('from line_profiler import profile\nprofile.enable(output_prefix=%r)\n' % pfx + (PROG % n))
+        q4 = subprocess.run([sys.executable, 'sess.py'], capture_output=True, text=True, env=env, cwd=d4)
+        pref[pfx] = {'rc': q4.returncode, 'n': n}
+    for pfx, info in pref.items():
+        files = sorted(f for f in os.listdir(d4) if f.startswith(pfx))
+        info['files'] = [f if not f.startswith(pfx + '_') else pfx + '_<TS>.txt' for f in files]
+        lp = os.path.join(d4, pfx + '.lprof')
+        if os.path.exists(lp):
+            st5 = line_profiler.load_stats(lp)
+            info['hot_loop_hits'] = max([h for k, v in st5.timings.items() if k[2] == 'hot' for (_l, h, _t) in v] or [0])
+    out['explicit_prefixes'] = pref
     txt = os.path.join(d2, 'profile_output.txt')
     out['explicit_txt'] = open(txt, encoding='utf-8').read() if os.path.exists(txt) else None
     ts = [f for f in os.listdir(d2) if f.startswith('profile_output_') and f.endswith('.txt')]
